@@ -312,6 +312,14 @@ func (sn3 *storageNodeV3) GetBase() entitywrapper.EntityBaseI {
 }
 
 func (sn3 *storageNodeV3) MigrateFrom(e entitywrapper.EntityI) error {
+	// the contracts call Update(&storageNodeV3{}) on whatever version is stored: a blobber that was
+	// never touched while v2 was current is still v1
+	if v1, ok := e.(*storageNodeV1); ok {
+		sn3.ApplyBaseChanges(storageNodeBase(*v1))
+		sn3.Version = "v3"
+		return nil
+	}
+
 	v2, ok := e.(*storageNodeV2)
 	if !ok {
 		return errors.New("struct migrate fail, wrong storageNode type")
